@@ -96,7 +96,7 @@ func ZZ_C05_H1() {
 // serialised and read back by the strict line reader; the number of lines may not exceed what
 // the same call produces with a harmless value, and every line must have a token name.
 func ZZ_C05_REQ() {
-	ep := zz.Choose("entry", 12)
+	ep := zz.Choose("entry", 15)
 	vn := zz.Range("vn", 0, zz.Param("V", 3))
 	val := zz.Bytes("val", vn)
 	var key []byte
@@ -129,6 +129,12 @@ func ZZ_C05_REQ() {
 			h.SetMultipartFormBoundary(string(val))
 		case 11:
 			h.SetArgBytes([]byte("X-A"), val, false)
+		case 12:
+			h.AddArgBytes([]byte("X-A"), val, false)
+		case 13:
+			h.SetHost(string(val))
+		case 14:
+			h.SetContentLengthBytes(val)
 		}
 	}
 	var base RequestHeader
@@ -158,7 +164,7 @@ func ZZ_C05_REQ() {
 
 // ZZ_C05_RESP: response-header entry points (incl. Set-Cookie through the Cookie type).
 func ZZ_C05_RESP() {
-	ep := zz.Choose("entry", 12)
+	ep := zz.Choose("entry", 17)
 	vn := zz.Range("vn", 0, zz.Param("V", 3))
 	val := zz.Bytes("val", vn)
 	var key []byte
@@ -205,6 +211,16 @@ func ZZ_C05_RESP() {
 			h.Set("Trailer", string(val))
 		case 11:
 			h.SetCanonical([]byte("Location"), val)
+		case 12:
+			h.AddArgBytes([]byte("X-A"), val, false)
+		case 13:
+			h.SetBytesV("X-A", val)
+		case 14:
+			h.SetContentEncoding(string(val))
+		case 15:
+			h.SetContentType(string(val))
+		case 16:
+			h.SetContentLengthBytes(val)
 		}
 	}
 	var base ResponseHeader
